@@ -222,12 +222,14 @@ class Pool:
 
     def mapping(self, no_derivatives=False, python_only=False):
         m = {}
+        self.used_styles = set()
         for nm, t in self.term.items():
             st = self.style[nm]
             if python_only:
                 st = {"value_np": "value", "call2_np": "call2"}.get(st, st)
             if no_derivatives and st == "call2" and self.rng.random() < 0.3:
                 st = "call1"
+            self.used_styles.add(st)
             m[t] = self.field[nm].mapped(st)
         return m
 
@@ -358,23 +360,24 @@ class RG:
     def xvec(self):
         return N("x", (), None, (self.d,), {}, real=True)
 
-    def realify(self, n):
+    def realify(self, n, smooth=False):
         if n.real or not self.cplx:
             return n
-        return m_un(self.rng.choice(["real", "real", "imag", "abs"]), n, real=True)
+        # below a derivative no abs of complex data: UFL documents its rule d|f| = sign(Re f) df as not meaningful there
+        return m_un(self.rng.choice(["real", "real", "imag"] + ([] if smooth else ["abs"])), n, real=True)
 
-    def pos(self, a, off=1.5):
+    def pos(self, a, off=1.5, smooth=False):
         """A value with real part >= off (real mode: >= off): off + a*conj(a)-like."""
-        a = self.realify(a) if self.cplx and self.rng.random() < 0.5 else a
+        a = self.realify(a, smooth) if self.cplx and self.rng.random() < 0.5 else a
         if self.cplx and not a.real:
             sq = m_mul(a, m_un("conj", a))
         else:
             sq = m_mul(a, a)
         return m_add("add", lit(off), sq)
 
-    def small(self, a):
+    def small(self, a, smooth=False):
         """a / (2 + |a|^2)-like: modulus below 0.36."""
-        return m_div(a, self.pos(a, 2))
+        return m_div(a, self.pos(a, 2, smooth))
 
     # ---- conditions
     def cond(self, depth, dlev):
@@ -386,14 +389,14 @@ class RG:
             return N("lnot", (self.cond(depth - 1, dlev),), None, (), {}, kind="cond")
         rel = self.rng.choice(["lt", "gt", "le", "ge", "eq", "ne"])
         style = self.rng.choice(["fn", "fn", "op"]) if rel in ("lt", "gt", "le", "ge") else "fn"
-        a = self.realify(self.scalar(min(depth, 1), dlev=dlev, smooth=dlev > 0))
+        a = self.realify(self.scalar(min(depth, 1), dlev=dlev, smooth=dlev > 0), dlev > 0)
         rr = self.rng.random()
         if rr < 0.2:
             b = a  # exact tie
         elif rr < 0.3 and a.op == "getitem" and a.kids[0].op == "x":
             b = lit(self.rng.choice([0.5, -0.5, 0.25, 1]))
         else:
-            b = self.realify(self.scalar(min(depth, 1), dlev=dlev, smooth=dlev > 0))
+            b = self.realify(self.scalar(min(depth, 1), dlev=dlev, smooth=dlev > 0), dlev > 0)
         return N("cmp", (a, b), rel, (), {}, kind="cond") if style == "fn" else N("cmp", (a, b), rel + ":op", (), {}, kind="cond")
 
     # ---- scalars
@@ -436,7 +439,7 @@ class RG:
             a = S()
             rr = rng.random()
             if rr < 0.5:
-                b = self.pos(S(2), 2)
+                b = self.pos(S(2), 2, smooth)
             elif rr < 0.75:
                 b = lit(rng.choice([2, -4, 0.5, 3, -1, 1] + ([1j, 1 + 1j] if self.cplx else [])))
             else:
@@ -447,9 +450,9 @@ class RG:
             if rr < 0.45:
                 return m_pow(S(), lit(rng.choice([0, 1, 2, 3, 2, 3, -1, -2, 4])))
             if rr < 0.7:
-                return m_pow(self.pos(S(2)), lit(rng.choice([0.5, 1.5, -0.5, 2.5, 2.0, -1.0] + ([0.5 + 1j, -1j] if self.cplx else []))))
+                return m_pow(self.pos(S(2), 1.5, smooth), lit(rng.choice([0.5, 1.5, -0.5, 2.5, 2.0, -1.0] + ([0.5 + 1j, -1j] if self.cplx else []))))
             if rr < 0.85:
-                return m_pow(self.pos(S(2)), m_mul(lit(0.5), S(2)))
+                return m_pow(self.pos(S(2), 1.5, smooth), m_mul(lit(0.5), S(2)))
             if rr < 0.93:
                 return m_pow(lit(rng.choice([2, 0.5, 3, -2])), m_mul(lit(0.5), S(2)))
             return m_pow(S(), S(2))
@@ -464,38 +467,38 @@ class RG:
             name = rng.choice(FNS)
             a = S()
             if name == "erf" and self.cplx:
-                a = self.realify(a) if rng.random() < 0.7 else a
+                a = self.realify(a, smooth) if rng.random() < 0.7 else a
             if rng.random() < 0.75:
                 if name == "sqrt":
-                    a = self.pos(a, rng.choice([0.5, 2.5]))
+                    a = self.pos(a, rng.choice([0.5, 2.5]), smooth)
                 elif name == "ln":
-                    a = self.pos(a, 1.5)
+                    a = self.pos(a, 1.5, smooth)
                 elif name in ("exp", "sinh", "cosh"):
                     a = m_mul(lit(0.25), a)
                 elif name in ("asin", "acos", "tan"):
-                    a = self.small(a)
+                    a = self.small(a, smooth)
             real = a.real and name in ("exp", "cos", "sin", "tan", "cosh", "sinh", "tanh", "atan", "erf")
             return N("fn", (a,), name, (), {}, real=real)
         if op == "atan2":
-            a, b = self.realify(S()), self.realify(S(2))
+            a, b = self.realify(S(), smooth), self.realify(S(2), smooth)
             if rng.random() < 0.6:
-                b = self.pos(b, 1.5)
+                b = self.pos(b, 1.5, smooth)
             return N("atan2", (a, b), None, (), {}, real=True)
         if op == "minmax":
-            a, b = self.realify(S()), self.realify(S(rng.choice([1, 2])))
+            a, b = self.realify(S(), smooth), self.realify(S(rng.choice([1, 2])), smooth)
             if rng.random() < 0.08:
                 b = a
             return N(rng.choice(["max", "min"]), (a, b), None, (), {}, real=True)
         if op == "sign":
-            return N("sign", (self.realify(S()),), None, (), {}, real=True)
+            return N("sign", (self.realify(S(), smooth),), None, (), {}, real=True)
         if op == "conditional":
             return m_cond(self.cond(depth - 1, dlev), S(), S(rng.choice([1, 2])))
         if op == "bessel":
             kind = rng.choice("JYIK")
             nu = rng.choice([0, 1, 2, 0, 1, 0.5, 1.5])
-            a = self.realify(S())
+            a = self.realify(S(), smooth)
             if rng.random() < 0.85 or kind in "YK":
-                a = self.pos(a, 1.5)
+                a = self.pos(a, 1.5, smooth)
             return N("bessel", (a,), (kind, nu), (), {}, real=True)
         if op == "variable":
             return m_un("variable", S())
@@ -526,8 +529,16 @@ class RG:
         """Tensor -> scalar through the compound operators."""
         rng = self.rng
         T = lambda sh: self.tensor(sh, depth - 1, dlev, smooth)  # noqa: E731
-        w = rng.choice(["dot", "inner", "inner2", "tr", "det", "pow2", "dot0", "outer0", "inner0"])
+        w = rng.choice(["dot", "inner", "inner2", "tr", "det", "pow2", "dot0", "outer0", "inner0", "eps"])
         n = rng.choice(self.dims + [self.d])
+        if w == "eps":
+            # Levi-Civita contraction  eps_ij a_i b_j  /  eps_ijk a_i b_j c_k
+            k = rng.choice([2, 2, 3])
+            names = rng.sample(NAMES, k)
+            e = m_getitem(N("eps", (), k, (k,) * k, {}, real=True), tuple(("idx", nm) for nm in names))
+            for nm in names:
+                e = m_mul(e, m_getitem(T((k,)), (("idx", nm),)))
+            return e if rng.random() < 0.6 else m_un(rng.choice(["real", "conj", "abs", "neg"]), e)
         if w == "dot":
             return N("dot", (T((n,)), T((n,))), None, (), {})
         if w == "inner":
@@ -640,7 +651,7 @@ class RG:
         if op == "tmul":
             return m_mul(T(sh), S())
         if op == "tdiv":
-            b = self.pos(S(2), 2) if rng.random() < 0.6 else lit(rng.choice([2, -4, 0.5, 3]))
+            b = self.pos(S(2), 2, smooth) if rng.random() < 0.6 else lit(rng.choice([2, -4, 0.5, 3]))
             return m_div(T(sh), b)
         if op == "neg":
             return m_un("neg", T(sh))
@@ -667,7 +678,7 @@ class RG:
             names = rng.sample(NAMES, rank)
             fis = dict(zip(names, sh))
             body = self.fi(fis, depth - 1, dlev, smooth)
-            form = "tensor"
+            form = rng.choice(["tensor", "tensor", "xor"])
             if rank == 1 and rng.random() < 0.4:
                 form = "vector"
             if rank == 2 and rng.random() < 0.4:
@@ -822,7 +833,7 @@ class RG:
             if w == "r":
                 return m_mul(F(fis), self.scalar(depth - 1, dlev, smooth))
             if w == "d":
-                return m_div(F(fis), self.pos(self.scalar(max(depth - 2, 0), dlev, smooth), 2))
+                return m_div(F(fis), self.pos(self.scalar(max(depth - 2, 0), dlev, smooth), 2, smooth))
             return m_un("neg", F(fis))
         if op == "unary":
             w = rng.choice((["abs"] if kinks else []) + ["conj", "real", "imag"])
@@ -946,6 +957,8 @@ class Builder:
                 return ufl.as_vector(K[0], ii[0])
             if form == "matrix":
                 return ufl.as_matrix(K[0], ii)
+            if form == "xor":
+                return _E(K[0]) ^ ii
             return ufl.as_tensor(K[0], ii)
         if op == "stack":
             form = n.a
